@@ -120,8 +120,12 @@ def retier(hs, tier):
 
 
 def _c08():
-    hs = num_op_harnesses() + step_harnesses("make_pair concat partial_apply type_of type_equal make_range make_start_exclusive_range make_end_exclusive_range make_exclusive_range".split())
-    hs += disp_harnesses(["access", "apply"])
+    qn = ["c08_op_%s" % o for o in "add subtract divide power bitwise_shift_left opposite".split()]
+    hs = [dict(h, tier="quick" if h["name"] in qn else "thorough") for h in num_op_harnesses()]
+    hs += [dict(h, tier="quick" if h["name"] in ("step_make_pair", "step_type_equal", "step_make_range", "step_make_exclusive_range") else "thorough") for h in step_harnesses("make_pair concat partial_apply type_of type_equal make_range make_start_exclusive_range make_end_exclusive_range make_exclusive_range".split())]
+    qa = "pair list char_list byte_list symbol_list range concatenation number symbol expression".split()
+    hs += disp_harnesses(["access", "apply"], tags=qa)
+    hs += disp_harnesses(["access", "apply"], tier="thorough", tags=[t for t in TAGS if t not in qa])
     hs += disp_harnesses(["apply_type"] + DISP_UN, tier="thorough")
     return {
         "claim": "For every instruction that dispatches on operand types, one step from an arbitrary valid state returns Ok, leaves exactly one result, calls defer_op exactly once with (instruction, left, right) in source order iff the type combination is not defined (golden tables in harness/src/bodies/dispatch.rs), pushes unit when the host declines and leaves the host's value untouched on top when it accepts. Contract model of the data trait (BoundedData), scripted host.",
@@ -147,9 +151,10 @@ def _c10():
 
 def _c06():
     qn = "add divide power bitwise_shift_left".split()
-    hs = step_harnesses()
+    qs = "put push_value update_value end_side_effect jump_to reapply end_expression make_pair type_of make_range".split()
+    hs = [dict(h, tier="quick" if h["name"] in ["step_%s" % x for x in qs] else "thorough") for h in step_harnesses()]
     hs += [dict(h, tier="quick" if any(h["name"] == "c08_op_%s" % o for o in qn + ["opposite"]) else "thorough") for h in num_op_harnesses()]
-    hs += truth_harnesses()
+    hs += [dict(h, tier="quick" if h["name"] in ("c10_truth_and", "c10_truth_jump_if_true", "c10_truth_xor") else "thorough") for h in truth_harnesses()]
     qt = "pair list expression partial".split()
     hs += disp_harnesses(["access", "apply"], tags=qt)
     hs += disp_harnesses(["access", "apply"], tier="thorough", tags=[t for t in TAGS if t not in qt])
@@ -272,8 +277,8 @@ def _c07():
     fl = [dict(h, tier="thorough") for h in c09 if h["tier"] == "quick" and "_kf_" not in h["name"] and h["group"] == "c09" and not ("_ii_" in h["name"] or "_i_unary" in h["name"])]
     hs = ii + fl
     hs += retier(num_op_harnesses(), "thorough")
-    qa = "pair list char_list byte_list symbol_list range concatenation slice number symbol".split()
-    qc = "char_list range list number concatenation slice symbol_list byte_list".split()
+    qa = "pair list char_list byte_list range concatenation".split()
+    qc = "char_list range list number".split()
     hs += disp_harnesses(["access", "apply"], tags=qa) + disp_harnesses(["apply_type"], tags=qc)
     hs += disp_harnesses(["access", "apply"], tier="thorough", tags=[t for t in TAGS if t not in qa]) + disp_harnesses(["apply_type"], tier="thorough", tags=[t for t in TAGS if t not in qc])
     hs += disp_harnesses(DISP_UN, tier="thorough")
@@ -295,7 +300,7 @@ def _c07():
 QUICK_TEMPLATES = {
     "C01": "sub_chain value_sub sub_group if_else_f chain3_default list_pairs access_key subexpr apply side_effect and_eval ident_arith".split(),
     "C05": "sub_chain if_else_t chain3_default and_eval or_eval list_nested apply apply_nested subexpr side_effect".split(),
-    "C06": "if_else_f chain3_default chain_nodefault_hit chain_nodefault_miss cond_cmp and_eval or_skip apply apply_cond list_ops side_effect_value".split(),
+    "C06": "if_else_f chain3_default chain_nodefault_miss cond_cmp and_eval apply apply_cond side_effect_value".split(),
     "C10": "and_skip and_eval or_skip or_eval and_and cond_arms cond_arms_f chain3_default if_unit unless_f".split(),
     "C17": "ident ident_arith ident_two ident_in_input side_effect_host apply_host cond_arms and_skip".split(),
     "C20": None,
